@@ -252,7 +252,7 @@ theorem parse_pw_bios (h : Hooks) (bs : Bytes) (b : BiosRegion) (hp : parse h bs
 
 /-! ## what the round trip needs -/
 
-theorem align8_eq (v : Nat) :
+theorem ex_align8_eq (v : Nat) :
     align8 v = (v + 8 + 18446744073709551615) % 18446744073709551616 / 8 * 8 := by
   unfold align8 alignGo
   have := ArithTie.and_high_mask ((v + 8 + 18446744073709551615) % 18446744073709551616) 3 (by omega)
@@ -262,10 +262,10 @@ theorem align8_eq (v : Nat) :
   rw [e, this]
 
 theorem align8_le (v : Nat) : align8 v ≤ 18446744073709551608 := by
-  rw [align8_eq]; omega
+  rw [ex_align8_eq]; omega
 
-theorem align8_ge (v : Nat) (h : v ≤ 18446744073709551608) : v ≤ align8 v := by
-  rw [align8_eq]; omega
+theorem ex_align8_ge (v : Nat) (h : v ≤ 18446744073709551608) : v ≤ align8 v := by
+  rw [ex_align8_eq]; omega
 
 theorem slice_len16 (buf : Bytes) (h : ¬ buf.length < 24) : (slice buf 0 16).length = 16 :=
   slice_length buf 0 16 (by omega)
@@ -355,7 +355,7 @@ theorem nvar_none (h : Hooks) (hnv : ∀ b, h.nvarParse b = none) (c d : Prop) [
     exact he.symm
 
 /-- what `NewFile` reads of a header: a 16-byte GUID, no NVAR store yet -/
-theorem fileHeader_some (buf : Bytes) (i : FileInfo) (he : fileHeader buf = .ok (some i)) :
+theorem ex_fileHeader_some (buf : Bytes) (i : FileInfo) (he : fileHeader buf = .ok (some i)) :
     i.guid.length = 16 ∧ i.nvar = none := by
   simp only [fileHeader] at he
   repeat' split at he
@@ -383,7 +383,7 @@ theorem okp_file_step (h : Hooks) (hnv : ∀ b, h.nvarParse b = none) (fuel : Na
   all_goals (simp only [Except.ok.injEq, Prod.mk.injEq, Option.some.injEq] at hp)
   all_goals (obtain ⟨rfl, rfl⟩ := hp)
   all_goals (have hn := nvar_none h hnv _ _ _ _ (by assumption))
-  all_goals (have hi := fileHeader_some _ _ (by assumption))
+  all_goals (have hi := ex_fileHeader_some _ _ (by assumption))
   all_goals (subst hn)
   all_goals first
     | (simp [okFile, okSections, hi.1]; done)
@@ -416,7 +416,7 @@ theorem okFv_of_files (h : Hooks) (fuel : Nat) (data : Bytes) (off lh len : Nat)
   | cons f rest =>
     right
     have hlt := parseFiles_nonempty h fuel _ _ _ _ _ _ _ _ _ hfiles
-    have hge := align8_ge off hoff
+    have hge := ex_align8_ge off hoff
     refine ⟨hlen, ?_⟩
     omega
 
@@ -623,7 +623,7 @@ theorem Keep.trans {a b c : St} (h1 : Keep a b) (h2 : Keep b c) : Keep a c := by
   have hb := h1.2 ha
   rw [h2.2 (by rw [hb]; exact ha), hb]
 
-theorem setPolarity_keep (ep : UInt8) (st st1 : St) (h : setPolarity ep st = .ok st1) :
+theorem ex_setPolarity_keep (ep : UInt8) (st st1 : St) (h : setPolarity ep st = .ok st1) :
     Keep st st1 ∧ st1.pol = ep ∧ ep ≠ 0xF0 := by
   unfold setPolarity at h
   split at h
@@ -738,7 +738,7 @@ theorem sp_fv_step (h : Hooks) (fuel : Nat) (ih : SP h fuel) :
     | skip
   all_goals (simp only [Except.ok.injEq, Prod.mk.injEq] at hp)
   all_goals (obtain ⟨rfl, rfl⟩ := hp)
-  all_goals (have hs := setPolarity_keep _ _ _ (by assumption))
+  all_goals (have hs := ex_setPolarity_keep _ _ _ (by assumption))
   all_goals first
     | (exact ⟨hs.1, by simpa [Fv.info] using hs.2.1, by rw [hs.2.1]; exact hs.2.2⟩)
     | (have hk := ih.2.2.2.2.1 _ _ _ _ _ _ _ _ (by assumption)
